@@ -400,10 +400,12 @@ Definition arender (x : aoutcome * list Z) : list Z :=
   | (Some (ret, evs), dump) => ret ++ [SEP] ++ dump ++ [SEP] ++ flat_map aevent_z evs
   end.
 
-(* header line: [is_class; variant] (variant 1 = the tree's code, 0 = pinned upstream) *)
+(* header line: [is_class; variant] (variant 1 = the tree's code, 0 = pinned upstream); an
+   optional third field selects which non-class element type the implementation side
+   instantiates (the model is generic in the element type) *)
 Definition arr_run (case : list (list Z)) : list (list Z) :=
   match case with
-  | [cls; v] :: ops =>
+  | [cls; v] :: ops | [cls; v; _] :: ops =>
       [] :: map arender (arr_trace (if v =? 1 then afixed else aupstream) (negb (cls =? 0)) aenv0 ops)
   | _ => [[PRE]]
   end.
@@ -416,6 +418,6 @@ Definition srender (x : soutcome * list Z) : list Z :=
 
 Definition arr_spec_run (case : list (list Z)) : list (list Z) :=
   match case with
-  | [cls; v] :: ops => [] :: map srender (spec_trace (negb (cls =? 0)) senv0 ops)
+  | [cls; v] :: ops | [cls; v; _] :: ops => [] :: map srender (spec_trace (negb (cls =? 0)) senv0 ops)
   | _ => [[PRE]]
   end.
